@@ -9,6 +9,16 @@ leg
             the AddrTable reference model below; blocking calls (connect,
             accept loops, resolve, close of a connection) run in helper
             virtual threads
+  race      TWO application threads run short programs of bind-type
+            operations (bind without argument / number / name, the automatic
+            bind of sendto / connect / listen, close) on ONE controller at
+            the same time under the virtual scheduler; every scheduling
+            decision list up to a depth is explored for every pair of
+            programs.  The outcomes must be those of some sequential order of
+            the operations in the AddrTable model, no address may be reported
+            by two open sockets, and afterwards the controller's table (probed
+            with raw binds), datagram delivery, the answer to connect and the
+            effect of each close must be the model's
 
 AddrTable (written from the Socket.bind docstring and LLCP 1.3 section 4.3):
   addresses 0 and 1 belong to the link controller and its discovery
@@ -43,6 +53,18 @@ Oracles (name -> meaning)
   datagram-misdelivered          recvfrom() returns something that was not
                                  sent to this socket's address with this
                                  payload from this source (loss is allowed)
+  (race leg)
+  address-handed-out-twice       two open sockets report the same address
+  outcomes-not-serialisable      no order of the two threads' operations
+                                 yields the observed addresses / errnos
+  address-not-freed / address-free-though-bound / close-freed-other-address
+                                 a raw bind(number) probe disagrees with the
+                                 model about an address being in use
+  datagram-not-delivered         a datagram handed to the controller for the
+                                 address of an open, bound logical data link
+                                 socket with an empty queue did not arrive
+  connect-answer-lost            the peer's answer to connect() by name did
+                                 not reach the connecting socket
 """
 import os
 
@@ -51,7 +73,8 @@ from hypothesis import strategies as st
 import nfc.llcp
 
 from vlib import vsched
-from vlib.engine import HarnessError, Leg, Violation, unexpected
+from vlib.engine import (HarnessError, Leg, Violation, from_json, to_json,
+                         unexpected)
 from vlib.llcpair import (DATA_LINK_CONNECTION, LOGICAL_DATA_LINK,
                           RAW_ACCESS_POINT, LlcPair, other)
 
@@ -75,6 +98,14 @@ ASSUMPTIONS = [
     "the property speaks about connect by name",
     "raw access point sockets are only bound and closed (address table), "
     "never used for traffic; the link is lossless and pumped by the harness",
+    "race leg: operations of two threads on one controller are expected to "
+    "take effect one at a time (the outcomes equal those of some sequential "
+    "order); the two threads never use the same socket; schedules are "
+    "explored at synchronisation-point granularity (lock acquisitions) under "
+    "the virtual scheduler, all decision lists over the first 8 / 20 points",
+    "race leg: a datagram dispatched to the address of an open logical data "
+    "link socket whose receive queue is empty must arrive (nothing can lose "
+    "it between dispatch() and the socket)",
 ]
 
 # Confirmed-defect classes that can be avoided by construction.  Empty in the
@@ -989,6 +1020,450 @@ def machine_case(draw, max_steps):
             "agf": [draw(st.booleans()), draw(st.booleans())], "ops": ops}
 
 
+# ------------------------------------------- two threads on one address table
+# Two application threads run short programs of bind-type operations on ONE
+# controller (side a) at the same time; the virtual scheduler decides at every
+# synchronisation point which of the two goes on, and every decision list is
+# enumerated.  Oracle: the outcomes are those of SOME sequential order of the
+# operations in the AddrTable model (each operation takes effect at one
+# instant), and the quiescent table afterwards is exactly the model's.
+R_NAME = VALID[0]                       # the name the programs bind
+R_NAME2 = VALID[16]
+R_PRE = {"1": VALID[1], "2": VALID[2]}  # named socket each thread owns
+R_FILL_NAMES = VALID[3:16]              # 13 names: one address of 16..31 left
+R_NOBODY = "urn:nfc:sn:nobody"
+R_FREE_DYN = {"none": 34, "named": 34, "dynamic": 63}
+R_FREE_NAMED = {"none": 18, "dynamic": 18, "named": 31}
+
+
+def race_programs(fill):
+    dyn, named = R_FREE_DYN[fill], R_FREE_NAMED[fill]
+    one = [
+        ["bind", "ldl", None],          # anonymous
+        ["bind", "ldl", dyn],           # the number an anonymous bind gets
+        ["bind", "dlc", R_NAME],        # a name: lowest free of 16..31
+        ["bind", "dlc", R_NAME2],
+        ["bind", "dlc", "urn:nfc:sn:snep"],
+        ["bind", "raw", named],         # the number a named bind gets
+        ["sendto"], ["connect"], ["listen"],    # automatic binds
+        ["close", "anon"], ["close", "named"],  # a socket bound beforehand
+    ]
+    progs = [[op] for op in one]
+    progs += [
+        [["bind", "ldl", None], ["close", "own"]],
+        [["close", "anon"], ["bind", "ldl", None]],
+        [["bind", "dlc", R_NAME], ["close", "own"]],
+        [["close", "named"], ["bind", "dlc", "own-name"]],
+        [["sendto"], ["close", "own"]],
+        [["listen"], ["bind", "ldl", None]],
+    ]
+    return progs
+
+
+class RSock(object):
+    def __init__(self, sid, kind, sock, owner):
+        self.sid, self.kind, self.sock, self.owner = sid, kind, sock, owner
+        self.addr = None            # address reported when the bind returned
+        self.name = None
+        self.open = True
+        self.fill = False
+        self.via = None             # sendto | connect | listen | None
+        self.group = None           # model group in the accepted order
+
+    def __repr__(self):
+        return "<s%d %s of %s at %r>" % (self.sid, self.kind, self.owner,
+                                         self.addr)
+
+
+def race_replay(base, order):
+    """run the events through a fresh AddrTable; None when every observed
+    outcome is admissible at its place, else a description of the first
+    that is not.  event = (op, RSock, arg, outcome)"""
+    tab = AddrTable()
+    groups = {}
+    for op, r, arg, res in list(base) + list(order):
+        if op == "close":
+            g = groups.pop(r.sid, None)
+            if g is not None:
+                tab.remove(g, r.sid, True)
+            continue
+        verdict, detail = tab.expect_bind(r.kind, arg)
+        if res[0] == "err":
+            if verdict != "err":
+                return tab, groups, "%s bind(%r) raised %s although the " \
+                    "model has %s free" % (r, arg, E.errorcode.get(
+                        res[1], res[1]), sorted(detail)[:4])
+            if detail != ANY and res[1] not in detail:
+                return tab, groups, "%s bind(%r) raised %s, documented %s" % (
+                    r, arg, E.errorcode.get(res[1], res[1]),
+                    sorted(E.errorcode[x] for x in detail))
+            continue
+        if verdict != "ok":
+            return tab, groups, "%s bind(%r) got address %r, the model " \
+                "expects an error (%s)" % (r, arg, res[1],
+                                           detail if detail == ANY else sorted(
+                                               E.errorcode[x] for x in detail))
+        if res[1] not in detail:
+            return tab, groups, "%s bind(%r) got address %r, admissible: %s" \
+                % (r, arg, res[1], sorted(detail)[:4])
+        groups[r.sid] = tab.add(r.sid, r.kind, res[1],
+                                arg if isinstance(arg, str) else None)
+    return tab, groups, None
+
+
+def merges(p, q):
+    """all interleavings of two sequences that keep each one's order"""
+    if not p or not q:
+        yield list(p) + list(q)
+        return
+    for rest in merges(p[1:], q):
+        yield [p[0]] + rest
+    for rest in merges(p, q[1:]):
+        yield [q[0]] + rest
+
+
+def run_race(case, ctx):
+    ctx.set_class("race")
+    fill = case["fill"]
+    pair = LlcPair(248, 248, True, True, step_budget=200000)
+    sched = pair.sched
+    socks = []
+    wire = []                   # PDUs side a put on the link (ref dict form)
+    pair.taps.append(lambda f: wire.extend(f.pdus) if f.src == "a" else None)
+
+    def new(kind, owner):
+        r = RSock(len(socks) + 1, kind, pair.socket("a", TYPES[kind]), owner)
+        socks.append(r)
+        return r
+
+    def bind_now(r, arg):
+        """sequential bind on the controller thread; the model event"""
+        try:
+            r.sock.bind() if arg is None else r.sock.bind(arg)
+        except nfc.llcp.Error as e:
+            return ("bind", r, arg, ("err", e.errno))
+        r.addr = r.sock.getsockname()
+        r.name = arg if isinstance(arg, str) else None
+        return ("bind", r, arg, ("ok", r.addr))
+
+    def probe(addr):
+        """is the address taken?  A raw access point may bind any number."""
+        p = pair.socket("a", RAW_ACCESS_POINT)
+        try:
+            p.bind(addr)
+        except nfc.llcp.Error as e:
+            if e.errno != E.EADDRINUSE:
+                raise unexpected(e, oracle="probe-bind-error")
+            return True
+        p.close()
+        return False
+
+    try:
+        # ---------------------------------------------------------- before
+        base = []
+        mine = {"1": {}, "2": {}}
+        for t in ("1", "2"):
+            mine[t]["anon"] = new("ldl", t)
+            base.append(bind_now(mine[t]["anon"], None))
+            mine[t]["named"] = new("dlc", t)
+            base.append(bind_now(mine[t]["named"], R_PRE[t]))
+        if fill == "dynamic":
+            for i in range(29):
+                r = new("ldl", "fill")
+                r.fill = True
+                base.append(bind_now(r, None))
+        elif fill == "named":
+            for n in R_FILL_NAMES:
+                r = new("dlc", "fill")
+                r.fill = True
+                base.append(bind_now(r, n))
+        tab, groups, bad = race_replay(base, [])
+        if bad is not None:
+            raise Violation("bind-sequential", bad)
+
+        # ------------------------------------------------------------ race
+        events = {"1": [], "2": []}
+        state = {"1": {"done": False, "exc": None, "pending": None},
+                 "2": {"done": False, "exc": None, "pending": None}}
+
+        def program(t, ops):
+            st_ = state[t]
+
+            def auto(r, via, fn):
+                r.via = via
+                st_["pending"] = r
+                try:
+                    fn()
+                except nfc.llcp.ConnectRefused as e:
+                    st_["refused"] = e.reason
+                except nfc.llcp.Error as e:
+                    if r.sock.getsockname() is None:
+                        st_["pending"] = None
+                        events[t].append(("bind", r, None, ("err", e.errno)))
+                        return
+                    st_["exc"] = e      # bound, then the call itself failed
+                st_["pending"] = None
+                if r.addr is None:      # else: recorded while it was blocked
+                    r.addr = r.sock.getsockname()
+                    events[t].append(("bind", r, None, ("ok", r.addr)))
+
+            def body():
+                own = None
+                for op in ops:
+                    if op[0] == "bind":
+                        own = new(op[1], t)
+                        arg = R_PRE[t] if op[2] == "own-name" else op[2]
+                        events[t].append(bind_now(own, arg))
+                    elif op[0] == "sendto":
+                        own = r = new("ldl", t)
+                        auto(r, "sendto", lambda: r.sock.sendto(
+                            b"S%d" % r.sid, 60, nfc.llcp.MSG_DONTWAIT))
+                    elif op[0] == "connect":
+                        own = r = new("dlc", t)
+                        auto(r, "connect", lambda: r.sock.connect(R_NOBODY))
+                    elif op[0] == "listen":
+                        own = r = new("dlc", t)
+                        auto(r, "listen", lambda: r.sock.listen(1))
+                    elif op[0] == "close":
+                        r = own if op[1] == "own" else mine[t][op[1]]
+                        r.sock.close()
+                        r.open = False
+                        events[t].append(("close", r, None, None))
+                    else:
+                        raise HarnessError("unknown race op %r" % (op,))
+                st_["done"] = True
+
+            def guarded():
+                try:
+                    body()
+                except Exception as e:
+                    st_["exc"] = e
+            return guarded
+
+        sched.choices, sched.ci = [], 0
+        sched.spawn(program("1", case["t1"]), "T1")
+        sched.spawn(program("2", case["t2"]), "T2")
+        sched.choices, sched.ci = [int(c) for c in case["choices"]], 0
+        del sched.trace[:]
+        sched.settle()
+        trace = list(sched.trace)
+        used = sched.ci
+        for t in ("1", "2"):
+            if state[t]["exc"] is not None:
+                raise unexpected(state[t]["exc"], oracle="racing-call-raises")
+            r = state[t]["pending"]
+            if r is not None:
+                # blocked inside connect(): the automatic bind is done
+                r.addr = r.sock.getsockname()
+                if r.addr is None:
+                    raise Violation("racing-call-blocks", "%s: %s() waits "
+                                    "without a bound socket" % (r, r.via))
+                events[t].append(("bind", r, None, ("ok", r.addr)))
+            elif not state[t]["done"]:
+                raise Violation("racing-call-blocks", "thread T%s did not "
+                                "finish: %r" % (t, sched.blocked()))
+
+        # -------------------------------- the outcomes are serialisable
+        live = [r for r in socks if r.open and r.addr is not None]
+        seen = {}
+        for r in live:
+            if r.sock.getsockname() != r.addr:
+                raise Violation("sockname-changed", "%s now reports %r"
+                                % (r, r.sock.getsockname()))
+            if r.addr in seen:
+                raise Violation("address-handed-out-twice", "%s and %s are "
+                                "both bound at %d (schedule %r)"
+                                % (seen[r.addr], r, r.addr, trace))
+            seen[r.addr] = r
+        why = []
+        for order in merges(events["1"], events["2"]):
+            tab, groups, bad = race_replay(base, order)
+            if bad is None:
+                break
+            why.append(bad)
+        else:
+            raise Violation("outcomes-not-serialisable", "T1 %r, T2 %r: no "
+                            "order of the operations explains the outcomes "
+                            "(%s)" % (case["t1"], case["t2"], why[0]))
+        for r in socks:
+            r.group = groups.get(r.sid)
+
+        # -------- the table at rest is the model's at every address that
+        # the programs or the sockets bound beforehand touched, at the next
+        # free address of each range and at the well-known address
+        watch = set([4, 16, 31, 32, 63])
+        for op, r, arg, res in base[:4] + events["1"] + events["2"]:
+            if r.addr is not None:
+                watch.add(r.addr)
+            if isinstance(arg, int):
+                watch.add(arg)
+        watch.update(tab.free(16, 31)[:1] + tab.free(32, 63)[:1])
+        watch = sorted(watch)
+
+        def table_check(what):
+            for addr in watch:
+                taken = probe(addr)
+                if taken and addr not in tab.by_addr:
+                    raise Violation("address-not-freed", "%s: address %d is "
+                                    "refused (EADDRINUSE), no open socket is "
+                                    "bound there" % (what, addr))
+                if not taken and addr in tab.by_addr:
+                    raise Violation("address-free-though-bound", "%s: address"
+                                    " %d could be bound again although %s "
+                                    "is open" % (what, addr, seen.get(addr)))
+        table_check("after the race")
+
+        # ----------------- every bound socket is reachable at its address
+        targets = [r for r in live if r.kind == "ldl" and not r.fill]
+        for r in targets:
+            pair.inject("a", nfc.llcp.pdu.UnnumberedInformation(
+                r.addr, 40, b"R%d" % r.sid))
+        for r in targets:
+            got = []
+            while r.sock.poll("recv", 0):
+                data, ssap = r.sock.recvfrom()
+                got.append((bytes(data), ssap))
+            if got != [(b"R%d" % r.sid, 40)]:
+                raise Violation(
+                    "datagram-misdelivered" if got else "datagram-not-"
+                    "delivered", "%s received %r, sent to its address was %r"
+                    % (r, got, [(b"R%d" % r.sid, 40)]))
+        if any(r.via in ("sendto", "connect") for r in live):
+            pair.pump(3)
+        for r in live:
+            if r.via == "sendto":
+                mark = b"S%d" % r.sid
+                for q in wire:
+                    if q["type"] == "UI" and q["data"] == mark and \
+                            q["ssap"] != r.addr:
+                        raise Violation("datagram-source-wrong", "%s sent a "
+                                        "datagram that carries source %d"
+                                        % (r, q["ssap"]))
+            if r.via == "connect":
+                t = r.owner
+                if not state[t]["done"] or state[t].get("refused") is None:
+                    raise Violation("connect-answer-lost", "%s connect(%r): "
+                                    "the peer's answer did not reach the "
+                                    "socket (%r)" % (r, R_NOBODY, state[t]))
+        for t in ("1", "2"):
+            if state[t]["exc"] is not None:
+                raise unexpected(state[t]["exc"], oracle="racing-call-raises")
+
+        # ------------------------------ closing frees its own address only
+        for r in [x for x in live if not x.fill]:
+            r.sock.close()
+            r.open = False
+            tab.remove(r.group, r.sid, True)
+            if probe(r.addr):
+                raise Violation("address-not-freed", "%s closed, address %d "
+                                "is still refused" % (r, r.addr))
+            for x in live:
+                if x.open and not x.fill and not probe(x.addr):
+                    raise Violation("close-freed-other-address", "closing %s "
+                                    "freed address %d of %s" % (r, x.addr, x))
+        table_check("after closing")
+        for name, exc in pair.failures():
+            raise unexpected(exc, oracle="thread-died")
+        ctx.label("fill:" + fill)
+        for t in ("1", "2"):
+            for op, r, arg, res in events[t]:
+                if op == "bind" and res[0] == "err":
+                    ctx.label("race-bind-error:" + E.errorcode.get(
+                        res[1], str(res[1])))
+        if len(set(trace)) > 1:
+            ctx.label("interleaved")
+            ctx.nontrivial()
+        ctx.note({"trace": trace[:16], "choices_used": used, "outcomes": [
+            [[op, list(res) if res else None] for op, r, arg, res in events[t]]
+            for t in "12"]})
+        return [i - 1 for i in trace]
+    finally:
+        pair.close()
+
+
+R_TAKES = {"dynamic": ("ldl", "sendto", "connect", "listen"),
+           "named": ("dlc", "raw")}
+
+
+def race_pairs(tier):
+    out = []
+    for fill in ("none", "dynamic", "named"):
+        progs = race_programs(fill)
+        if fill != "none":
+            # one address left: single operations that take one of that range
+            progs = [p for p in progs if len(p) == 1 and (
+                p[0][0] if p[0][0] != "bind" else p[0][1]) in R_TAKES[fill]
+                and p[0][2:] != ["urn:nfc:sn:snep"]]
+        for i, p1 in enumerate(progs):
+            for j, p2 in enumerate(progs):
+                if tier == "quick" and j < i:
+                    # the mirror image (threads swapped, every decision
+                    # inverted) is explored already
+                    continue
+                out.append((fill, p1, p2))
+    return out
+
+
+class _RaceCtx(object):
+    def __init__(self):
+        self.labels, self.nt, self.info = [], False, None
+
+    def label(self, *names):
+        self.labels.extend(names)
+
+    def nontrivial(self, key=None):
+        self.nt = True
+
+    def set_class(self, cls):
+        pass
+
+    def note(self, info):
+        self.info = info
+
+
+def bulk_race(tier, seed, shard, nshards, acct):
+    """depth-first over the schedule tree of every pair: a run reports the
+    decision taken at each scheduling point (the given list, then "the
+    running thread goes on"); its children take the other decision at one
+    later point < depth.  Every decision list over the first `depth` points
+    is reached exactly once."""
+    depth = RACE_DEPTH[tier]
+    ev = nt = 0
+    labels, samples = {}, []
+    for k, (fill, p1, p2) in enumerate(race_pairs(tier)):
+        if k % nshards != shard:
+            continue
+        stack = [[]]
+        while stack:
+            prefix = stack.pop()
+            case = {"fill": fill, "t1": p1, "t2": p2, "choices": prefix}
+            ctx = _RaceCtx()
+            try:
+                try:
+                    bits = run_race(from_json(to_json(case)), ctx)
+                except (Violation, HarnessError):
+                    raise
+                except Exception as e:
+                    raise unexpected(e)
+            except Violation as v:
+                v.case = case
+                raise
+            ev += 1
+            nt += 1 if ctx.nt else 0
+            for lab in ctx.labels:
+                labels[lab] = labels.get(lab, 0) + 1
+            if ctx.nt and len(samples) < 3 and ev % 41 == 0:
+                samples.append(dict(case, observed=ctx.info))
+            for at in range(len(prefix), min(len(bits), depth)):
+                stack.append(bits[:at] + [1 - bits[at]])
+    acct.bulk(ev, nt, labels, samples)
+
+
+RACE_DEPTH = {"quick": 8, "thorough": 20}
+R_TAKES = {"dynamic": ("ldl", "sendto", "connect", "listen"),
+           "named": ("dlc", "raw")}
+
+
 LEGS = [
     Leg("machine", run=run_machine,
         gen=lambda tier: machine_case(100 if tier == "quick" else 150),
@@ -1003,4 +1478,32 @@ LEGS = [
              "address or name freed by an earlier close, or >=10 addresses "
              "of 16..31 or 32..63 were in use at once, or a resolve "
              "returned an address after such a re-bind."),
+    Leg("race", run=run_race, bulk=bulk_race, exhaustive=True,
+        shards_quick=8, shards_thorough=16,
+        rule="two application threads on ONE link controller under the "
+             "virtual scheduler, each running a program of one or two "
+             "operations out of: bind() without argument, bind(number an "
+             "anonymous bind would get), bind(name) for two names and the "
+             "well-known snep name, raw bind(number a named bind would get), "
+             "the automatic bind of sendto / connect / listen on an unbound "
+             "socket, close of a socket bound beforehand (anonymous / named) "
+             "or of the one just bound, close followed by a bind of the freed "
+             "name or range (17 programs; quick: all unordered pairs, "
+             "thorough: all ordered pairs), with four sockets bound "
+             "beforehand, plus the pairs of single address-taking operations "
+             "with 31 of 32 dynamic / 15 of 16 named addresses in use; for "
+             "every pair every list of scheduling decisions over the first 8 "
+             "(quick) / 20 (thorough: the complete schedule tree of every "
+             "pair) synchronisation points at which both threads can run "
+             "(depth-first over the schedule tree, each distinct schedule "
+             "once; the running thread goes on at later points).  Checked: no address reported by "
+             "two open sockets, the outcomes (address or errno) are those of "
+             "some sequential order of the operations in the AddrTable model, "
+             "the controller's table equals the model's at every touched "
+             "address (probed with raw binds), a datagram to each bound "
+             "logical data link socket arrives exactly there, the answer to "
+             "connect reaches the connecting socket, and closing the sockets "
+             "one by one frees exactly the closed address each time.  "
+             "non-trivial = the schedule switched between the two threads "
+             "while both were unfinished."),
 ]
